@@ -49,6 +49,7 @@ type wjob struct {
 	Out     string        `json:"out"`
 	Workdir string        `json:"workdir"`
 	Errs    bool          `json:"errs"`
+	MemMB   int           `json:"mem_limit_mb,omitempty"`
 }
 
 type posIndex struct {
@@ -403,12 +404,14 @@ func Main(args []string) int {
 				it.Name = "spec"
 				// the template stage (goimports) dominates cost and rarely depends on the fault: in the quick
 				// tier it is run for every 8th case and for all baselines
-				if !r.Thorough() && c.class != "baseline" && hash(c.id)%8 != 0 {
+				// (recursive component schemas always get it: their recursion is walked by the templates)
+				recursive := c.mut != nil && (strings.HasPrefix(c.mut.Kind, "self-") || strings.HasPrefix(c.mut.Kind, "allof-cycle"))
+				if !r.Thorough() && c.class != "baseline" && hash(c.id)%8 != 0 && !recursive {
 					it.NoWrite = true
 				}
 				items = append(items, it)
 			}
-			jb, _ := json.Marshal(wjob{Items: items, Runs: 1, Out: out, Workdir: mod.Dir, Errs: true})
+			jb, _ := json.Marshal(wjob{Items: items, Runs: 1, Out: out, Workdir: mod.Dir, Errs: true, MemMB: 16384})
 			jf := filepath.Join(scratch, "job-"+tag+".json")
 			os.WriteFile(jf, jb, 0o644)
 			// generous wall-clock watchdog: its firing alone is inconclusive, the CPU ceiling decides
@@ -978,11 +981,39 @@ func mustPlan(tree *jsonv.Value) []mutate.Spec {
 	var out []mutate.Spec
 	seenKind := map[string]int{}
 	containers := map[string]bool{"examples": true, "headers": true, "links": true, "callbacks": true, "encoding": true, "content": true, "variables": true, "securitySchemes": true, "responses": true, "requestBodies": true, "parameters": true, "schemas": true, "properties": true, "patternProperties": true, "pathItems": true, "webhooks": true, "paths": true, "mapping": true, "scopes": true, "flows": true, "servers": true, "tags": true, "security": true, "allOf": true, "oneOf": true, "anyOf": true, "items": true, "enum": true, "required": true}
+	// component schemas used as the schema of a parameter, header or form body: their recursion meets the
+	// parameter-style rules and the uri templates instead of the JSON ones
+	paramUse := map[string]bool{}
+	doctree.WalkPaths(tree, func(p doctree.Path, v *jsonv.Value, parent *jsonv.Value) {
+		if len(p) < 2 || p[len(p)-1] != "$ref" || v.Kind != jsonv.String || !strings.HasPrefix(v.Str, "#/components/schemas/") {
+			return
+		}
+		for _, s := range p {
+			if s == "parameters" || s == "headers" || s == "application/x-www-form-urlencoded" || s == "multipart/form-data" {
+				paramUse[strings.TrimPrefix(v.Str, "#/components/schemas/")] = true
+				return
+			}
+		}
+	})
+	selfKinds := []string{"self-array", "self-array-of-array", "self-object", "self-map", "self-sum"}
 	doctree.WalkPaths(tree, func(p doctree.Path, v *jsonv.Value, parent *jsonv.Value) {
 		if len(p) == 0 {
 			return
 		}
 		pp := append(doctree.Path{}, p...)
+		if len(p) == 3 && p[0] == "components" && p[1] == "schemas" {
+			if paramUse[p[2]] && seenKind["self-param"] < 4 {
+				seenKind["self-param"]++
+				for _, k := range selfKinds {
+					out = append(out, mutate.Spec{Path: pp, Kind: k})
+				}
+			} else if seenKind["self-any"] < 2 {
+				seenKind["self-any"]++
+				for _, k := range selfKinds {
+					out = append(out, mutate.Spec{Path: pp, Kind: k})
+				}
+			}
+		}
 		if len(p) == 3 && p[0] == "components" && p[1] == "schemas" && seenKind["cycle"] < 3 {
 			seenKind["cycle"]++
 			out = append(out, mutate.Spec{Path: pp, Kind: "allof-cycle-inline"}, mutate.Spec{Path: pp, Kind: "allof-cycle-direct"}, mutate.Spec{Path: pp, Kind: "self-ref"})
